@@ -743,11 +743,16 @@ fn pass_x3(text: String, ex: &Extract, probes: bool, probe_ctr: &mut usize) -> R
                 let k = strip(key);
                 // among the closures whose window contains the key the SHORTEST one wins (a closure nested in
                 // another one is also part of the outer one's text)
-                cf.whole.iter().enumerate().filter(|(_, (a, b))| {
-                    let mut from = a.saturating_sub(120);
-                    while !text.is_char_boundary(from) { from += 1; }
-                    strip(&text[from..*b]).contains(k.as_str())
-                }).min_by_key(|(_, (a, b))| b - a).map(|(i, _)| i).ok_or(Fail(format!("closure_key {} not found: {}", kno, key)))?
+                // a closure whose OWN text contains the key is preferred; the 120-byte context window is the fall-back
+                let own = cf.whole.iter().enumerate().filter(|(_, (a, b))| strip(&text[*a..*b]).contains(k.as_str())).min_by_key(|(_, (a, b))| b - a).map(|(i, _)| i);
+                match own {
+                    Some(i) => i,
+                    None => cf.whole.iter().enumerate().filter(|(_, (a, b))| {
+                        let mut from = a.saturating_sub(120);
+                        while !text.is_char_boundary(from) { from += 1; }
+                        strip(&text[from..*b]).contains(k.as_str())
+                    }).min_by_key(|(_, (a, b))| b - a).map(|(i, _)| i).ok_or(Fail(format!("closure_key {} not found: {}", kno, key)))?,
+                }
             }
             None => kno - 1,
         };
@@ -857,8 +862,12 @@ impl<'a> FragFinder<'a> {
             // `stmts:>prefix..` starts AFTER the statement with that prefix (robust when the first statement of
             // the range may be reordered by a change)
             let (from, after) = match from.strip_prefix('>') { Some(f) => (f, true), None => (from, false) };
+            // `..<prefix` ends BEFORE the statement with that prefix (so that deleting the fragment's own last statement
+            // does not lose the anchor)
+            let (to, before) = match to.strip_prefix('<') { Some(t) => (t, true), None => (to, false) };
             let mut start = None;
             let mut pending_after = false;
+            let mut prev_end: usize = 0;
             // prefixes are compared without white space (a statement may be laid out over several lines)
             let nows = |x: &str| x.chars().filter(|c| !c.is_whitespace()).collect::<String>();
             let from_s = nows(from);
@@ -890,10 +899,17 @@ impl<'a> FragFinder<'a> {
                 }
                 if let Some(s0) = start {
                     if !to.is_empty() && t.starts_with(to) {
+                        if before {
+                            if s > s0 {
+                                self.found = Some((s0, prev_end));
+                            }
+                            return;
+                        }
                         self.found = Some((s0, e));
                         return;
                     }
                 }
+                prev_end = e;
             }
         }
     }
